@@ -266,6 +266,95 @@ print("CONFIRMED" if bad else "NOT-CONFIRMED")
 """
 
 
+_REPLAY_SYMPL_EVENT = """
+import numpy as np, warnings
+warnings.filterwarnings("ignore")
+from numba import njit
+from hiten import System
+from hiten.algorithms.dynamics.base import _propagate_dynsys
+from hiten.algorithms.types.configs import EventConfig
+cm = System.from_bodies("earth", "moon").get_libration_point(1).get_center_manifold(degree=4)
+hs = cm.dynamics.pipeline.get_hamiltonian("center_manifold_real").hamsys
+y0 = np.array([0.0, 1e-3, 2e-3, 0.0, 1e-3, 0.0])
+@njit
+def ev(t, y):
+    return y[2] - 1e-3
+bad = False
+for cfg in (EventConfig(direction=0, terminal=True), None):
+    sol = _propagate_dynsys(hs, y0, 0.0, 3.0, forward=-1, steps=301, method="symplectic", order=4,
+                            **({} if cfg is None else dict(event_fn=ev, event_cfg=cfg)))
+    t = np.asarray(sol.times)
+    print("with event" if cfg is not None else "without event", "times", t[:2], "...", t[-1])
+    bad = bad or not (np.all(t <= 0) and np.all(np.diff(t) < 0))
+print("CONFIRMED" if bad else "NOT-CONFIRMED")
+"""
+
+
+def _sympl_event_times(chk):
+    """symplectic integrate() with a terminal event: hit and no-hit paths sign their times alike"""
+    import hiten.algorithms.dynamics.base as base
+    import hiten.algorithms.integrators.symplectic as sym
+    from hiten.algorithms.dynamics.protocols import _HamiltonianSystemProtocol
+
+    class HS(base._DynamicalSystem):
+        def __init__(self):
+            self._dim = 6
+            self._rhs_compiled = None
+        n_dof = 3
+        jac_H = "J"
+        clmo_H = "C"
+        rhs_params = ("J", "C", 3)
+        clmo = "C"
+
+        @property
+        def dim(self):
+            return 6
+
+        def _build_rhs_impl(self):
+            return lambda t, y: y
+
+        def dH_dQ(self, *a):
+            return None
+
+        def dH_dP(self, *a):
+            return None
+
+        def poly_H(self):
+            return None
+
+    def th():
+        for forward in (1, -1):
+            for hit in (True, False):
+                rec = {}
+
+                def until(**kw):
+                    g = _np.asarray(kw["t_values"], float)
+                    rec["grid"] = g
+                    t_hit = 0.5 * (g[1] + g[2])              # a time of the grid the low-level routine integrates over
+                    rec["t_hit"] = t_hit
+                    return (True, t_hit, _np.ones(6), None) if hit else (False, 0.0, _np.zeros(6), _np.zeros((len(g), 6)))
+                saved = (sym._integrate_symplectic_until_event, sym._ExtendedSymplectic._compile_event_function)
+                sym._integrate_symplectic_until_event = until
+                sym._ExtendedSymplectic._compile_event_function = lambda self, f: f
+                try:
+                    sol = base._propagate_dynsys(HS(), _np.zeros(6), 0.0, 1.5, forward=forward, steps=4, method="symplectic",
+                                                 order=4, event_fn=lambda t, y: 0.0)
+                finally:
+                    sym._integrate_symplectic_until_event, sym._ExtendedSymplectic._compile_event_function = saved
+                if not _np.array_equal(rec["grid"], forward * _np.linspace(0.0, 1.5, 4)):
+                    raise Refuted("symplectic-event-grid", str(rec["grid"]))
+                want = _np.array([0.0, rec["t_hit"]]) if hit else forward * _np.linspace(0.0, 1.5, 4)
+                got = _np.asarray(sol.times, float)
+                if got.shape != want.shape or not _np.allclose(got, want, rtol=0, atol=1e-15):
+                    raise Refuted(f"symplectic propagation with an event, forward={forward}, "
+                                  f"{'hit' if hit else 'no hit'}: times {got.tolist()}, want {want.tolist()} (physical, signed)",
+                                  "hit and no-hit paths of _ExtendedSymplectic.integrate sign their times differently",
+                                  replay=_REPLAY_SYMPL_EVENT, inputs={"forward": forward, "hit": hit})
+    chk.obl("_propagate_dynsys(method=symplectic, event): times are physical (signed once) on the hit path and on the no-hit path, "
+            "forward = +1 and -1", "K2 wiring (real _propagate_dynsys + real integrate(), low-level routine recorded)",
+            [BA + ":_propagate_dynsys", SY + ":_ExtendedSymplectic.integrate"], "B4 exact evaluation", th)
+
+
 def _zero_span(chk):
     """the constant-solution short cut is taken only for a span of exactly zero length"""
     import hiten.algorithms.dynamics.base as base
@@ -673,6 +762,7 @@ def run(chk):
     _directed(chk)
     _times(chk)
     _zero_span(chk)
+    _sympl_event_times(chk)
     # "samples are returned exactly at the requested times": the fixed-step driver on a symbolic NON-UNIFORM grid (shared
     # with C02: same real driver, same obligation)
     from contracts import C02
